@@ -110,6 +110,7 @@ func runC09(ctx *core.Ctx) {
 	ctx.Rule("W6", "termination detection: every return of the runner is on the waiting == running edge, after waiting was incremented, after a Broadcast (not Signal) and after the Unlock", 1)
 	ctx.Rule("W7", "exactly-once: the enqueue in Add is dominated by added[item] being false and paired with added[item] = true in the same critical section; added is (re)initialised only when nil; the item handed to f was read from todo under the lock and todo was shortened under that same lock hold", 3)
 	ctx.Rule("W8", "worker count: the goroutine-start loop runs n-1 times unconditionally, the caller runs one runner itself after it, and running is set to n", 3)
+	c09More(ctx)
 
 	sp := p.Pkg("par")
 	if sp == nil {
@@ -495,3 +496,87 @@ func runC09(ctx *core.Ctx) {
 }
 
 func isTrueConst(v ssa.Value) bool { k, ok := ssax.ConstBool(v); return ok && k }
+
+// c09More: rules added after the fourth seeding round.
+func c09More(ctx *core.Ctx) {
+	p := ctx.P
+	ctx.Rule("W9", "no panic under the lock: bounds engine over Add, Do and runner (an index outside todo panics while the mutex is held, and Do never returns)", 1)
+	ctx.Rule("W10", "the condition variable is usable before anyone can wait on it: Do stores the mutex into wait.L on every path before it starts a goroutine or runs a runner (binding it lazily elsewhere leaves Do on a never-touched Work with a nil Locker)", 1)
+	ctx.Rule("W11", "nothing but the dedupe set decides whether an item is enqueued: every path through Add that does not enqueue the item has found added[item] true", 1)
+	var entries []*ssa.Function
+	for _, n := range []string{"(*Work).Add", "(*Work).Do", "(*Work).runner"} {
+		if f := ctx.Need("W9", "par", n); f != nil {
+			entries = append(entries, f)
+		}
+	}
+	if len(entries) > 0 {
+		totality(ctx, entries, totalOpts{rule: "W9", allowPanic: func(pn *ssa.Panic) string {
+			// Do's documented misuse panics (n < 1, called twice) carry a constant message and are raised
+			// before any lock is taken
+			if mi, ok := pn.X.(*ssa.MakeInterface); ok {
+				if _, isK := ssax.ConstString(mi.X); isK && len(locksetAt(p, pn.Parent(), pn)) == 0 {
+					return "constant-message precondition panic, raised with no lock held"
+				}
+			}
+			return ""
+		}})
+	}
+	if do := p.Func("par", "(*Work).Do"); do != nil {
+		g := graph(p, do)
+		var bind *ssa.Store
+		g.Instrs(func(i ssa.Instruction) {
+			st, ok := i.(*ssa.Store)
+			if !ok {
+				return
+			}
+			if fa, ok := st.Addr.(*ssa.FieldAddr); ok && ssax.FieldOf(fa) != nil && ssax.FieldOf(fa).Name() == "L" {
+				if in, ok := fa.X.(*ssa.FieldAddr); ok && ssax.FieldOf(in) != nil && ssax.FieldOf(in).Name() == "wait" {
+					bind = st
+				}
+			}
+		})
+		ok := bind != nil
+		if bind != nil {
+			g.Instrs(func(i ssa.Instruction) {
+				switch x := i.(type) {
+				case *ssa.Go:
+					if !g.Dominates(bind, x) {
+						ok = false
+					}
+				case *ssa.Call:
+					if cal := x.Call.StaticCallee(); cal != nil && cal.Name() == "runner" && !g.Dominates(bind, x) {
+						ok = false
+					}
+				}
+			})
+		}
+		ctx.Check(ok, "W10", "par.Work.Do#cond-bound", do.Pos(), "wait.L = &mu is stored in Do ahead of every goroutine start and runner call")
+	}
+	if add := p.Func("par", "(*Work).Add"); add != nil && len(add.Params) >= 2 {
+		g := graph(p, add)
+		item := add.Params[1]
+		var enq *ssa.Store
+		for _, a := range fieldAccesses(g, parPkg, "Work", "todo") {
+			if st, ok := a.At.(*ssa.Store); ok && a.Write {
+				if c, ok := st.Val.(*ssa.Call); ok && isBuiltinCall(c, "append") {
+					enq = st
+				}
+			}
+		}
+		if enq == nil {
+			ctx.Bad("W11", "par.Work.Add#skip-only-if-added", add.Pos(), "Add never enqueues")
+		} else {
+			eb := enq.Block().Index
+			ok := true
+			for _, r := range g.Returns() {
+				if !onAllPathsVia(g, r, nil, func(f ssax.Fact) bool {
+					l, isL := f.Cond.(*ssa.Lookup)
+					return isL && f.Val && l.Index == ssa.Value(item) && isFieldLoad("added")(l.X)
+				}, func(b int) bool { return b == eb }) {
+					ok = false
+				}
+			}
+			ctx.Check(ok, "W11", "par.Work.Add#skip-only-if-added", enq.Pos(), "an item is left out only when the dedupe set already contains it (any other shortcut can drop an item that was never run, e.g. the nil item on a fresh Work)")
+		}
+	}
+}
